@@ -353,6 +353,24 @@ func checkC09(c *core.Ctx) {
 	if l, hs, crash := loadReal([]*ast.Source{{Name: "hand.graphql", Input: handRuleSDL}}); crash == "" && l.OK {
 		run(hs, handRuleSDL, handLinkDocs)
 	}
+	// small scope: the valid ones among all documents with at most 3 / 4 selections over the small schema (c08small.go)
+	if l, ss, crash := loadReal([]*ast.Source{{Name: "small.graphql", Input: smallSDL}}); crash == "" && l.OK {
+		budget := 3
+		if c.Thorough() {
+			budget = 4
+		}
+		all := smallScopeDocs(budget)
+		if len(all) > 40000 {
+			// every third document of the sorted enumeration (the enumeration itself is exhaustive in C08)
+			var pick []string
+			for i := 0; i < len(all); i += 3 {
+				pick = append(pick, all[i])
+			}
+			all = pick
+		}
+		c.SetExtra("small_scope_documents_tried", len(all))
+		run(ss, smallSDL, all)
+	}
 }
 
 func min(a, b int) int {
